@@ -1697,7 +1697,7 @@ class Element(Mapping[str, Attribute]):
             if version >= 4:
                 used_strings.add(elem.name)
             for attr in elem.values():
-                if attr.name == 'name':
+                if attr.name.casefold() == 'name':
                     # Has its own special slot.
                     continue
                 if stringdb_ind is not None:
@@ -1743,7 +1743,8 @@ class Element(Mapping[str, Attribute]):
                 attr_count -= 1
             file.write(pack('<i', attr_count))
             for attr in elem.values():
-                if attr.name == 'name':
+                # Match the check above - attribute names are case-insensitive.
+                if attr.name.casefold() == 'name':
                     continue
                 if stringdb_ind is not None:
                     file.write(pack(stringdb_ind, string_to_ind[attr.name]))
